@@ -119,13 +119,13 @@ func Run(r *common.Run) error {
 		runRcpt(r, parseIDs(c.ids), strings.Split(c.sched, ","), "rcpt-corpus")
 	}
 	nS := r.Pick(2500, 40000)
-	for n := 0; n < nS && len(r.Failures) < 60; n++ {
+	for n := 0; n < nS && len(r.Failures) < 60 && r.Hist["problem"] < 25; n++ {
 		r.Mark("case sess-random %d", n)
 		reqs := randReqs(r.Rnd)
 		runSess(r, reqs, randSched(r.Rnd, len(reqs), 10+r.Rnd.Intn(30)), "sess-random")
 	}
 	nR := r.Pick(1500, 25000)
-	for n := 0; n < nR && len(r.Failures) < 60; n++ {
+	for n := 0; n < nR && len(r.Failures) < 60 && r.Hist["problem"] < 25; n++ {
 		r.Mark("case rcpt-random %d", n)
 		ids := randIDs(r.Rnd)
 		runRcpt(r, ids, randRcptSched(r.Rnd, len(ids), 8+r.Rnd.Intn(24)), "rcpt-random")
